@@ -9,6 +9,22 @@ CLAIMED = {
          "Wire.tla (pure TLA+ RFC 7011 value/record/set encoders and an independently written parser) is model-checked exhaustively on a small scope; every (element, value) case run through the real encoder and the real collector decode path is recorded as a trace event and TLC decides bytes = EncValue, reported = Len, decoded = value, decoder consumption exact.",
          "Trusted: TLC, the harness's value<->digit projections (plain shifts), the verif hook VerifDecodePacket. Coverage of wide types is boundary+random, not exhaustive.",
          "TLA+ spec + TLC exhaustive small scope + TLC trace validation of recorded real-code events"),
+ "C02": ("DESIGN.md §4 C02",
+         "Every message a real exporter writes to a raw peer socket (TCP and UDP) is compared byte for byte by TLC with EncMessage/EncSet/EncTemplateRecord/EncDataRecord of Wire.tla applied to what the application handed over, and independently re-parsed by Wire's reference parser (ParseHeader/ParseTemplateBody/ExactDecode); Wire itself is model-checked on a small scope.",
+         "Trusted: TLC, the harness value projections and the peer-socket reader. Inputs are random over the full registry plus user-registered elements, not exhaustive.",
+         "TLA+ Wire/Exporter specs + TLC byte-level trace validation of recorded exporter output"),
+ "C08": ("DESIGN.md §4 C08",
+         "Exporter.tla keeps the sequence counter as 16-bit limbs; TLC explores all send mixes exhaustively on a small scope (counter started at 0 and next to 2^32) and validates recorded sessions of a real exporter, including sessions the verif hook places just below 2^31 and 2^32: header seq/domain/export-time and reported byte count are part of the byte-level equality.",
+         "Trusted: TLC, harness, the VerifSetSeqNumber hook. Failed attempts are outside the statement; the model names the code's late-failure counter advance as a deviation action.",
+         "TLA+ Exporter spec (TLC exhaustive) + TLC trace validation with limb arithmetic across the 2^32 wrap"),
+ "C09": ("DESIGN.md §4 C09",
+         "Exporter.tla has one action per SendSet outcome class; error actions leave the wire unchanged. TLC checks NeverInvalid/size/sequence invariants on all mixes to a bounded depth and validates recorded sessions of a real exporter mixing valid sends with unknown ids, wrong counts, id mismatches, every size 65519..65540, undefined sets and ill-typed values; 'nothing written' is observed at the peer socket.",
+         "Trusted: TLC, harness peer reader (stray bytes misalign the next read or appear in the final Quiesce read).",
+         "TLA+ Exporter spec (TLC exhaustive) + TLC trace validation of recorded valid/invalid send mixes"),
+ "C16": ("DESIGN.md §4 C16",
+         "SetBuilder.tla models the builder state with one action per API call; the add path is an ignored argument. TLC checks length bookkeeping exhaustively to depth 5-6 and validates recorded operation sequences on one reused real set object (each schedule on four objects: mixed paths and each path alone), comparing reported lengths, header bytes, record buffers and the serialized message with the specification.",
+         "Trusted: TLC, harness. Template records are added with empty-valued elements (well-formed use).",
+         "TLA+ SetBuilder spec (TLC exhaustive) + TLC trace validation of recorded builder observations"),
 }
 PENDING = {}
 
